@@ -410,6 +410,16 @@ func c15Write(sel *node.Selection, cfg string, fn string) (text string, err erro
 			err = bw.Flush()
 		}
 		return buf.String(), err
+	case "Node+UpsertInto/second-document":
+		// one writer object writes two documents, the second one is looked at
+		var first, second bytes.Buffer
+		w.Out = &first
+		if err = sel.UpsertInto(w.Node()); err != nil {
+			return "", err
+		}
+		w.Out = &second
+		err = sel.UpsertInto(w.Node())
+		return second.String(), err
 	case "Node+UpsertInto", "Node+InsertInto":
 		var buf bytes.Buffer
 		w.Out = &buf
@@ -624,7 +634,7 @@ func (p *c15) Run(raw json.RawMessage) eng.Result {
 		t, _ := model.FromJSON(m.DataDefinitions(), []byte(c18Inits["two"]))
 		starts := []string{""}
 		startsOf(m.DataDefinitions(), t, "", &starts)
-		for _, fn := range []string{"WriteJSON", "WritePrettyJSON", "JSONWtr.JSON", "Node+UpsertInto", "Node+InsertInto", "Node+UpsertInto/bufio16", "Node+UpsertInto/bufio512", "Node+UpsertInto/bufio4096", "Node+UpsertInto/bufio65536"} {
+		for _, fn := range []string{"WriteJSON", "WritePrettyJSON", "JSONWtr.JSON", "Node+UpsertInto", "Node+InsertInto", "Node+UpsertInto/bufio16", "Node+UpsertInto/bufio512", "Node+UpsertInto/bufio4096", "Node+UpsertInto/bufio65536", "Node+UpsertInto/second-document"} {
 			c15Tree(c, m, t, "tree two", &res, ss, starts, []string{"compact", "pretty+enumids+qualified"}, fn)
 		}
 		res.Outcomes = []string{"funcs"}
